@@ -72,6 +72,7 @@ def run(ctx):
     rng = ctx.rng
     loop = vloop.VLoop().install()
     rows = []
+    owns = []
     OWN = 0x1A2B
     try:
         app = shim.make_app()
@@ -99,6 +100,17 @@ def run(ctx):
                          addr=rng.getrandbits(8), payload=bytes(rng.getrandbits(8) for _ in range(plen)), eui64=[rng.getrandbits(8) for _ in range(8)],
                          ts=rng.getrandbits(32))
                 frame = ezsplib.spec_header(version, rng.getrandbits(8), im_id) + build_incoming(version, im_rx, v)
+                # the radio's own address is whatever the application state holds *now*: it changes between callbacks,
+                # in place or (as load_network_info does) by replacing the node-info object
+                r = rng.random()
+                if r < 0.15:
+                    OWN = rng.choice([0x0000, 0x2B5C, rng.getrandbits(16)])
+                    app.state.node_info.nwk = zt.NWK(OWN)
+                elif r < 0.3:
+                    import zigpy.state
+
+                    OWN = rng.choice([0x0000, 0x2B5C, rng.getrandbits(16)])
+                    app.state.node_info = zigpy.state.NodeInfo(nwk=zt.NWK(OWN), ieee=app.state.node_info.ieee, logical_type=app.state.node_info.logical_type)
                 rec.clear()
                 esc = None
                 try:
@@ -106,6 +118,7 @@ def run(ctx):
                 except BaseException as x:
                     esc = type(x).__name__
                 rows.append((version, "msg", frame, v, list(rec), esc))
+                owns.append(OWN)
             for k in range(ctx.n(40, 300)):
                 v = dict(nwk=rng.getrandbits(16), ieee=[rng.getrandbits(8) for _ in range(8)], status=rng.choice([0, 1, 2, 3, 4, rng.randrange(256)]),
                          decision=rng.choice([0, 1, 2, 3, rng.randrange(256)]), parent=rng.getrandbits(16))
@@ -118,10 +131,11 @@ def run(ctx):
                 except BaseException as x:
                     esc = type(x).__name__
                 rows.append((version, "tc", frame, v, list(rec), esc))
+                owns.append(OWN)
             loop.settle()
     finally:
         loop.shutdown()
-    model = ctx.driver([f"c13 cb {v} {OWN} {hx(f)}" for v, _, f, _, _, _ in rows])
+    model = ctx.driver([f"c13 cb {v} {own} {hx(f)}" for (v, _, f, _, _, _), own in zip(rows, owns)])
 
     def pkt_str(p):
         d = p.dst
@@ -138,6 +152,7 @@ def run(ctx):
         ctx.cov["evaluations"] += 1
         ctx.cov["distinct_nontrivial"] += 1
         ctx.count(f"{kind}:v{version}")
+        OWN = owns[i]
         if kind == "msg":
             ctx.count(f"mtype:{v['mtype'] if v['mtype'] < 7 else 'other'}")
             want_dst = {0: f"nwk:{OWN}", 2: f"group:{v['group']}", 4: "bcast:65532"}.get(v["mtype"])
@@ -168,7 +183,7 @@ def run(ctx):
             ctx.corr_diff(f"v{version} {kind} callback translation differs", {"version": version, "frame": hx(frame)}, impl[:300], model[i][:300])
         if i % 400 == 0:
             ctx.sample({"version": version, "kind": kind, "frame": hx(frame)[:80], "impl": impl[:160], "model": model[i][:160] if model else None})
-    ctx.cov["rule"] = ("for every version 4..14: incomingMessageHandler frames with message types 0..6 and undefined ones, random APS fields, payload lengths 0..100, RSSI extremes; "
+    ctx.cov["rule"] = ("for every version 4..14: incomingMessageHandler frames with message types 0..6 and undefined ones, random APS fields, payload lengths 0..100, RSSI extremes, the radio's own address changing between callbacks (in place or by replacing the node-info object); "
                        "trustCenterJoinHandler frames over all status x decision classes; encoded by role from the version's schema order, pushed through the real receive path and the real callback handler")
     ctx.exhaustive = False
 
